@@ -1,4 +1,5 @@
 import TaskModel.Vars.Lemmas
+import TaskModel.Vars.Cli
 import TaskModel.Gen.VarLayers
 import TaskModel.Gen.Load
 /-!
@@ -179,5 +180,83 @@ example : envChain [] [(0, .read 9)] [(2, .read 3), (3, .lit [119]), (4, .read 0
     [(0, []), (3, [119]), (2, [119]), (4, [])] := by decide                                       -- later TASK literal: seen
 example : envChain [] [(0, .lit [118])] [(1, .read 0), (2, .read 1)] = [(0, [118]), (1, [118]), (2, [118])] := by decide
 example : envChain [(0, [111])] [(0, .lit [118])] [(1, .read 0)] = [(0, [118]), (1, [111])] := by decide   -- the process value wins
+
+/-! ## the command-line layer ("global vars (including NAME=value command-line assignments)")
+
+`cmd/task` merges the assignments and `CLI_ARGS` / `CLI_*` into the Taskfile's globals AFTER
+the declared ones (`Vars.Merge`: override keeps the position, a new name is appended).  The
+property puts the assignments INTO the global level; within one level definitions are
+evaluated in order, so a declared global that refers to an assigned name sees the assigned
+value exactly when that name stands before it in the merged layer — i.e. when the name is
+ALSO declared before it.  For `NAME=value` this is the modelled behaviour (same level, order
+matters, as for any two globals).  For `CLI_ARGS` / `CLI_*`, which the documentation lists as
+special variables ("available unless overridden"), it contradicts the property: they are not
+available to declared globals nor to the global `env:` (open finding
+`C10-cli-specials-defined-after-globals`, monitor `vars.climon`). -/
+
+/-- where the merged layer puts a declared entry the command line does not assign: the
+entries before it are exactly the declared ones before it (with command-line values where
+assigned), everything the command line adds comes after it -/
+theorem C10_cli_merged_split (dpre dpost cli : Defs) (g : Name) (d : VarDef)
+    (hnd : (names (dpre ++ (g, d) :: dpost)).Nodup) (hcli : (names cli).Nodup) (hg : g ∉ names cli) :
+    ∃ pre post, taskfileVars (dpre ++ (g, d) :: dpost) cli = pre ++ (g, d) :: post ∧
+      names pre = names dpre ∧ g ∉ names post ∧ pre = dpre.map (overrideBy cli) := by
+  refine ⟨dpre.map (overrideBy cli), dpost.map (overrideBy cli) ++ cli.filter (fun p => p.1 ∉ names (dpre ++ (g, d) :: dpost)), ?_, ?_, ?_, rfl⟩
+  · rw [taskfileVars, mergeDefs_char cli _ hnd hcli]
+    simp only [List.map_append, List.map_cons, List.append_assoc, List.cons_append]
+    have : overrideBy cli (g, d) = (g, d) := by simp only [overrideBy, lookup_none_of_not_mem cli g hg]
+    rw [this]
+  · exact names_map_same _ _ (overrideBy_fst cli)
+  · simp only [names, List.map_append, List.mem_append, not_or]
+    constructor
+    · have h1 : List.map Prod.fst (List.map (overrideBy cli) dpost) = List.map Prod.fst dpost :=
+        names_map_same dpost _ (overrideBy_fst cli)
+      rw [h1]
+      simp only [names, List.map_append, List.map_cons] at hnd
+      have := (List.nodup_append.mp hnd).2.1
+      exact (List.nodup_cons.mp this).1
+    · intro hmem
+      apply hg
+      simp only [List.mem_map] at hmem
+      obtain ⟨q, hq, hqg⟩ := hmem
+      rw [← hqg]
+      exact List.mem_map_of_mem (List.mem_filter.mp hq).1
+
+/-- **C10, command-line layer.**  A declared global `g: '{{.x}}'` where `x` is assigned on the
+command line (`x=v`, or one of the `CLI_*` names) gets `v` iff `x` stands before `g` in the
+merged layer, i.e. iff `x` is also declared before `g`; otherwise it gets what the lower
+layers (process environment, special variables) hold for `x` — nothing, usually. -/
+theorem C10_cli_ref_iff (w : World) (dir : Str) (base : Env) (c : Cache) (dpre dpost cli : Defs) (g x : Name) (v : Str)
+    (hnd : (names (dpre ++ (g, .lit [.ref x]) :: dpost)).Nodup) (hcli : (names cli).Nodup)
+    (hg : g ∉ names cli) (hx : cli.lookup x = some (.lit [.text v])) :
+    get (evalBlock w dir (taskfileVars (dpre ++ (g, .lit [.ref x]) :: dpost) cli) base c).1 g =
+      if x ∈ names dpre then v else get base x := by
+  obtain ⟨pre, post, hsplit, hnames, hgpost, hpre⟩ := C10_cli_merged_split dpre dpost cli g _ hnd hcli hg
+  rw [hsplit, evalBlock_last w dir pre post g _ base c hgpost]
+  simp only [evalDef, render, List.append_nil]
+  have hpnd : (names pre).Nodup := by
+    rw [hnames]
+    simp only [names, List.map_append] at hnd
+    exact (List.nodup_append.mp hnd).1
+  split
+  · rename_i hmem
+    apply evalBlock_lookup_lit w dir pre x v base c hpnd
+    rw [hpre]
+    exact lookup_map_overrideBy dpre cli x _ hmem hx
+  · rename_i hmem
+    exact evalBlock_frame w dir pre base c x (by rw [hnames]; exact hmem)
+
+/- non-vacuity: `vars: {Y: '{{.X}}'}` with `task t X=1` — Y sees nothing; with X also declared
+before Y it sees 1; declared after Y: nothing (but X itself is 1) -/
+private def shC : Shell := fun cmd _ _ => cmd
+example : get (evalBlock ⟨shC, []⟩ [] (taskfileVars [(1, .lit [.ref 0])] (cliLayer [(0, [.text [49]])] [] {})) [] []).1 1 = [] := by decide
+example : get (evalBlock ⟨shC, []⟩ [] (taskfileVars [(0, .lit [.text [100]]), (1, .lit [.ref 0])] (cliLayer [(0, [.text [49]])] [] {})) [] []).1 1 = [49] := by decide
+example : let e := (evalBlock ⟨shC, []⟩ [] (taskfileVars [(1, .lit [.ref 0]), (0, .lit [.text [100]])] (cliLayer [(0, [.text [49]])] [] {})) [] []).1
+    (get e 1, get e 0) = ([], [49]) := by decide
+-- a global alias of CLI_ARGS is empty; a task-level reference (any later layer) sees it
+example : let e := (evalBlock ⟨shC, []⟩ [] (taskfileVars [(1, .lit [.ref nCLI_ARGS])] (cliLayer [] [97, 32, 98] {})) [] []).1
+    (get e 1, get e nCLI_ARGS) = ([], [97, 32, 98]) := by decide
+example : (names (cliLayer [(0, [.text [49]]), (5, []), (0, [.text [50]])] [] {})).Nodup ∧
+    (cliLayer [(0, [.text [49]]), (5, []), (0, [.text [50]])] [] {}).lookup 0 = some (.lit [.text [50]]) := by decide
 
 end Props.C10
